@@ -397,4 +397,26 @@ func derivedSet.InheritFrom$1
   ghost before call Set.Apply: assert arg0 == *sourceElements && arg1 == appliedMutations
   ghost after call Set.Apply: lastapplied = result
   ghost before call derivedSet.inheritMutations: assert arg0 == *s && arg1 == lastapplied
+
+-- inheritMutations: the derived set's own writer. Like every writer of a reactive set it holds the set's write-order mutex
+-- from before the contents change until every snapshot callback has been served (several sources feed the derived set from
+-- different goroutines: without the mutex a later update can overtake an earlier one on its way to a subscriber)
+-- (assumed frame: the critical section of the derived set touches the set's guarded state, the occurrence counters and
+-- the ds set objects only; what it computes - the union - is not decided, see the file header)
+assume-func github.com/iotaledger/hive.go/ds/reactive.derivedSet.applyInheritedMutations(s, mutations) (inheritedMutations, triggerID, callbacksToTrigger)
+  requires s != nil && s.set != nil && s.set.readableSet != nil && unlocked(s.set.readableSet.mutex)
+  modifies monitor(s.set.readableSet), ghost(ds.smem), ghost(ds.salive), ghost(ds.madd), ghost(ds.mdel)
+  ensures inheritedMutations != nil && unlocked(s.set.readableSet.mutex)
+
+func derivedSet.inheritMutations
+  instantiate ElementType: int
+  requires s != nil && s.set != nil && s.set.readableSet != nil && unlocked(s.set.mutex) && unlocked(s.set.readableSet.mutex) && mutations != nil
+  modifies everything
+  ghost before call derivedSet.applyInheritedMutations: assert held(s.set.mutex)
+  ghost after call derivedSet.applyInheritedMutations: assume forall i Int :: 0 <= i && i < len(r2) ==> r2[i] != nil        -- the list holds created callbacks only
+  ghost before call callback#Invoke: assert held(s.set.mutex) && held(registeredCallback.executionMutex) && !registeredCallback.unsubscribed && registeredCallback.lastUpdate == updateID
+  ghost before call callback#Invoke: assert arg0 == appliedMutations
+  loop 1 invariant held(s.set.mutex)
+  loop 1 invariant forall i Int :: 0 <= i && i < len(registeredCallbacks) ==> registeredCallbacks[i] != nil && unlocked(registeredCallbacks[i].executionMutex)
+  ensures unlocked(s.set.mutex)
 @*/
